@@ -25,7 +25,7 @@ rule = ("scripts = 'p fmt <description of the style> <sect flags> <opt flags>' t
         "quotes/backslashes/line feeds/high bytes); stream 2b = values of 65534..65537 bytes, plain and quoted, in every "
         "tier; stream 3 = names with the path separator '.' (known finding dot-in-name); stream 4 = 8 format descriptions "
         "that name their escape characters x values containing the other quote characters ('p expect'); stream 5 "
-        "(layouts) = texts WRITTEN BY THIS MODULE from the rules of the file format, expectation by 'p expect': 9 format "
+        "(layouts) = texts WRITTEN BY THIS MODULE from the rules of the file format, expectation by 'p expect': 11 format "
         "descriptions (other delimiters, assignment and comment characters), single- and double-quoted and plain "
         "values, CR LF, no final line feed, text behind the last element, empty sections, blanks inside '[ s ]' / "
         "'| s' / '{ s', name and '{' on different lines, 'a{', first option on the header line, names with inner blanks "
@@ -319,6 +319,25 @@ def pathfill(tier):
     return out
 
 
+DATAONLY = [
+    # values without name (data-only elements) between options and sections: text written here, forest by 'p expect'
+    ("{*} =;!#", "a { x; y=1; z; } b { } c = 2;", "61(-=78,79=31,-=7a),62,63=32"),
+    ("{*} =;!#", "lone;\n# c\ns {\n one; two = 2; ! c\n}\n", "-=6c6f6e65,73(-=6f6e65,74776f=32)"),
+    ("[ ] =;#", "k=1;\n[s]\nx;\ny=1; # c\n[t]\nz;\n", "6b=31,73(-=78,79=31),74(-=7a)"),
+    ("|x| =;#", "k=1;\n|s\nx;\ny=1;\n", "6b=31,73(-=78,79=31)"),
+    ("{x} =;#", "{s\nx;\ny=1;\n}\nz;", "73(-=78,79=31),-=7a"),
+    ("{*} =;!#", "a {\n x y ;\n}\n", "61(-=782079)"),
+]
+
+
+def dataonly(tier):
+    out = []
+    for i, (desc, text, forest) in enumerate(DATAONLY):
+        out.append(("data:%d" % i, ["p fmt %s 255 255" % hx(desc), "p root .", "p input " + hx(text), "p expect " + forest,
+                                    "p node", "p end"]))
+    return out
+
+
 def dotted(tier):
     """names with the path separator '.' (permitted by the name flags, outside `Render.admissible`): the
     parser refuses them, see the known finding `dot-in-name`"""
@@ -401,6 +420,8 @@ LAYFMT = [
     ("/x/ : !", "bar", "/", "", ":", "!"),
     ("{x} = #", "enc", "{", "}", "=", "#"),
     ("(x) : !", "enc", "(", ")", ":", "!"),
+    ("._. = #", "opt", ".", ".", "=", "#"),      # option list (mpt_parse_option alone)
+    ("/_/ : %", "opt", "/", "/", ":", "%"),
 ]
 
 
@@ -539,10 +560,10 @@ def _lay_flat(r, F, forest, eol):
 
 def _lay_forest(r, F, depth=0):
     fam = F[1]
-    flat = fam in ("sep", "bar")
+    flat = fam in ("sep", "bar", "opt")
     out = []
     for _ in range(r.choice([1, 2, 3, 4]) if depth == 0 else r.choice([0, 0, 1, 2, 3])):
-        if (depth < (1 if flat else 3)) and r.random() < 0.45:
+        if fam != "opt" and (depth < (1 if flat else 3)) and r.random() < 0.45:
             out.append((_lay_name(r, F, False), None, _lay_forest(r, F, depth + 1)))
         else:
             out.append((_lay_name(r, F, True), _lay_value(r, F), None))
@@ -563,7 +584,7 @@ def layouts(tier, seed, scale):
         F = LAYFMT[k % len(LAYFMT)]
         eol = b"\r\n" if r.random() < 0.25 else b"\n"
         forest = _lay_forest(r, F)
-        pieces = (_lay_flat if F[1] in ("sep", "bar") else _lay_nested)(r, F, forest, eol)
+        pieces = (_lay_flat if F[1] in ("sep", "bar", "opt") else _lay_nested)(r, F, forest, eol)
         text = b"".join(pieces)
         # behind the last element: nothing / blank and comment lines / a last line without line feed
         k2 = r.random()
@@ -586,7 +607,7 @@ def layouts(tier, seed, scale):
 def scripts(tier, seed, scale=1):
     return stat_all(exhaustive(tier) + random_forests(tier, seed, scale) + dotted(tier) + onequote(tier, seed)
                     + layouts(tier, seed, scale) + flagsets(tier, seed, scale) + bigvalues(tier) + valsweep(tier)
-                    + pathfill(tier))
+                    + pathfill(tier) + dataonly(tier))
 
 
 def nontrivial(script, c_lines):
